@@ -472,6 +472,12 @@ theorem stepIbc_back (s s' : State) (op : IbcOp) (h : stepIbc cfg s op = .ok s')
     · cases hf
     · cases hf; back_done
 
+omit h0 in
+theorem run_back (s s1 : State) (fl : List Prim) (h : run s fl = .ok s1) (hz : (backObs g0).flowDelta fl = 0) :
+    (backObs g0).val s1.L = (backObs g0).val s.L := by
+  obtain ⟨L', hL, rfl⟩ := run_ok h
+  rw [runFlow_obs (backObs_sound g0) fl _ _ hL, hz]; simp
+
 /-- backing along a whole history of the IBC layer (base operations, parked claims, re-entrant contracts, IBC) -/
 theorem step3_back (s s' : State3) (op : Op3) (h : step3 cfg s op = .ok s') :
     (backObs g0).val s'.s2.base.L = (backObs g0).val s.s2.base.L := by
@@ -511,6 +517,30 @@ theorem step3_back (s s' : State3) (op : Op3) (h : step3 cfg s op = .ok s') :
           have m2 := stepIbc_back cfg g0 h0 _ _ _ h2
           have m3 := stepIbc_back cfg g0 h0 _ _ _ h3
           simp only [setBase]; omega
+  | xibc g u n =>
+    simp only [step3] at h
+    split at h
+    · cases h
+    · cases hk : cfg.kind g with
+      | none => simp [hk] at h
+      | some kp =>
+        simp only [hk] at h
+        cases h1 : run s.s2.base (precompileTokenIn kp g (U u) n) with
+        | error e => simp [h1] at h
+        | ok b1 =>
+          simp only [h1] at h
+          cases h2 : stepIbc cfg b1 (.toIbc g u n) with
+          | error e => simp [h2] at h
+          | ok b2 =>
+            simp only [h2] at h
+            cases h3 : stepIbc cfg b2 (.xfer g u n) with
+            | error e => simp [h3] at h
+            | ok b3 =>
+              simp only [h3, Except.ok.injEq] at h; subst h
+              have m1 := run_back g0 _ _ _ h1 (back_precompileTokenIn g0 kp g u n (kind_mo hk h0))
+              have m2 := stepIbc_back cfg g0 h0 _ _ _ h2
+              have m3 := stepIbc_back cfg g0 h0 _ _ _ h3
+              simp only [setBase]; omega
 
 theorem runOps3_back (ops : List Op3) (s : State3) :
     (backObs g0).val (runOps3 cfg s ops).s2.base.L = (backObs g0).val s.s2.base.L := by
